@@ -244,7 +244,7 @@ def run_arm(task):
 
 
 # ------------------------------------------------------------------------------------------------ replay on the real engine
-def replay(kname, tys, witness, expected, expr_fn):
+def replay(kname, tys, witness, expected, expr_fn, release=False):
     """Evaluate the kernel on the witness through the real executor (no optimizer): a table holds, per operand, the raw
     value and a NULL-or-0 flag column; `raw + flag` rebuilds an operand that is NULL with the given raw slot content."""
     ops = [t for t in tys if not t.startswith('to:')]
@@ -269,9 +269,9 @@ def replay(kname, tys, witness, expected, expr_fn):
         setup.append('insert into r values (%s)' % ', '.join(vals))
     from relsmt.sexp import show
     plan = show(['proj', ['list', expr_fn(*exprs)], ['scan', '$0', ['list'] + ['$0.%d' % k for k in range(ci)], 'true']])
-    out, rc, err = rl('planrun', {'setup': setup, 'plans': [plan]})
+    out, rc, err = rl('planrun', {'setup': setup, 'plans': [plan]}, release=release)
     res = [o for o in out if 'plan' in o]
-    how = {'setup': setup, 'plan': plan}
+    how = {'setup': setup, 'plan': plan, 'driver_profile': 'release' if release else 'dev'}
     if not res:
         return {'reproduced': None, 'how': how, 'note': 'replay did not run: ' + err[-200:]}
     o = res[0]
@@ -355,10 +355,11 @@ def main(tier, only=None):
                 continue
             kind = o['kind']
             key = 'kernel:%s:%s:%s' % (r['kernel'], kind, r['profile']) if kind in FOLD else 'kernel:%s:%s:%s:%s' % (r['kernel'], r['arm'], kind, r['profile'])
-            if 'witness' in o and r['profile'] == 'dev':
-                rp = replay(r['kernel'], arm[2], o['witness'], o['expected'], arm[4])
+            if 'witness' in o:
+                # dev-profile obligations are replayed on the dev build, release-profile ones on a release build of the driver
+                rp = replay(r['kernel'], arm[2], o['witness'], o['expected'], arm[4], release=(r['profile'] == 'release'))
             else:
-                rp = {'reproduced': None, 'how': {'note': 'release-profile semantics: not replayed (the driver is a dev build)'}}
+                rp = {'reproduced': None, 'how': {'note': 'no witness'}}
             rep.cov['traces_validated_against_impl'] = rep.cov.get('traces_validated_against_impl', 0) + (1 if rp['reproduced'] else 0)
             what = 'kernel %s[%s] (%s build): %s -- witness %s, SQL value %s, engine %s' % (
                 r['kernel'], r['arm'], r['profile'], kind, json.dumps(o.get('witness')), json.dumps(o.get('expected')), json.dumps((rp.get('how') or {}).get('engine')))
